@@ -24,7 +24,7 @@ func topicPool() []string {
 	long := strings.Repeat("t", 69)
 	// the last two are outside the documented charset: refused by stateless validation on a
 	// correct tree, but if a change lets them through they reach the genesis string keys
-	return []string{"a", "ab", "abc", "a.b", "A", "a-b", "b", long + "1", long + "2", long, "a/b", "a b"}
+	return []string{"a", "ab", "abc", "a.b", "A", "a-b", "b", long + "1", long + "2", long, ".", "..", "a/b", "a b"}
 }
 
 // genAolMsg draws one AOL message using the model to aim at existing or missing objects.
@@ -174,7 +174,7 @@ func (g *G) genAolGenesis(cdc codec.JSONCodec, dangling bool) json.RawMessage {
 		}
 		nT := 1 + g.intn("gen-topics", 4)
 		names := map[string]bool{}
-		valid := topicPool()[:10] // names inside the documented charset only: a genesis must be valid
+		valid := topicPool()[:12] // names inside the documented charset only: a genesis must be valid
 		for len(names) < nT {
 			names[pick(g, "gen-topic", valid)] = true
 		}
@@ -224,7 +224,7 @@ func (g *G) genAolGenesis(cdc codec.JSONCodec, dangling bool) json.RawMessage {
 		n := 1 + g.intn("dangling-n", 3)
 		for i := 0; i < n; i++ {
 			o := g.W0Accts[g.intn("dangling-owner", len(g.W0Accts))].Addr
-			name := pick(g, "dangling-topic", topicPool()[:10])
+			name := pick(g, "dangling-topic", topicPool()[:12])
 			if _, exists := gs.Topics[o.String()+"/"+name]; exists {
 				continue
 			}
